@@ -26,6 +26,8 @@ var c10Programs = []string{
 	"a && b\n", "a || b\n", "case x in a) b;; esac\n", "a >>f\n", "a >|f\n", "a <<E\nb\nE\n", "a <<-E\n\tb\nE\n", "a <>f\n", "a <&3\n", "a >&2\n", "((x))\n", "$((1))\n",
 	"a; b & c\n", "if a; then b; fi\n", "for x in a b; do c; done\n", "while a; do b; done\n", "f() { a; }\n", "( a )\n", "{ a; }\n", "a | b\n", "! a\n",
 	"a& `!`\n", "a; `!` b\n", "a >f `)`\n", "x | `a | | b`\n", "a&& $(!) b\n", "a <f \"`b |`\"\n", "a; b `c ;;`\n", "a |`fi`\n",
+	// a lexer-side syntax error with more text behind it: a fault in what the lexer still reads afterwards
+	"for \"a\" b; do c; done\n", "for $x in a; do b; done\n", "for 1x y z\n", "for a=b c d\n", "break() { a; } more text\n", "a; exit () b c\n", "a <<\"E\nF\" b c\nbody\n", "a ${x!y} more text\n", "a ${#x:-1} b c\n", "a; ) more text\n",
 	"echo \"$x ${y:-z} $(a b) `c`\" 'q' \\n\n", "x=1 y=$(a) cmd\n", "a # comment\n", "a \\\n b\n", "a <<E; b\n$x\nE\n", "é日本 \"é\"\n",
 }
 
@@ -102,6 +104,10 @@ func (p c10) Gen(seed uint64, tier string, idx int) (*Case, bool) {
 	// the shape of the injected error rotates per program: plain, wrapping io.EOF, wrapping io.ErrUnexpectedEOF
 	if c.Reader.FaultKind != "zero-progress" {
 		c.Reader.ErrKind = []string{"", "wraps-eof", "timeout", "unexpected-eof", "uncomparable", ""}[pi%6]
+		if pi%7 == 3 {
+			// a well-known sentinel of the standard library, unwrapped
+			c.Reader.ErrKind = gosim.SentinelKinds[(pi/7)%len(gosim.SentinelKinds)]
+		}
 	}
 	return c, true
 }
